@@ -20,8 +20,15 @@ set_option linter.unusedSimpArgs false
 namespace Ampverif.Lemmas.C08
 open Matrix
 
-/-- Unfold the regenerated entry definitions and evaluate `!![…] i j` / `![…] i` at literal indices. -/
+/-- Unfold the regenerated entry definitions (and the named intermediate vectors) and evaluate
+`!![…] i j` / `![…] i` at literal indices. -/
 macro "c08_unfold" : tactic =>
+  `(tactic| simp only [c08_entries, c08_vectors, Matrix.of_apply, Matrix.cons_val', Matrix.cons_val_zero,
+      Matrix.cons_val_one, Matrix.cons_val, Fin.zero_eta, Fin.mk_one, Fin.reduceFinMk, Fin.isValue])
+
+/-- As `c08_unfold`, but the named intermediate vectors `<family>_v<k>_<i>` stay folded (so that a
+previously proved value of such a vector can be substituted for it). -/
+macro "c08_unfold_entries" : tactic =>
   `(tactic| simp only [c08_entries, Matrix.of_apply, Matrix.cons_val', Matrix.cons_val_zero,
       Matrix.cons_val_one, Matrix.cons_val, Fin.zero_eta, Fin.mk_one, Fin.reduceFinMk, Fin.isValue])
 
